@@ -4,7 +4,7 @@ from __future__ import annotations
 
 import itertools
 
-from .. import e1, impl
+from .. import envs, e1, impl
 from ..chartgen import mk
 
 ID = "C12"
@@ -66,6 +66,7 @@ def src(strict):
 
 
 def setup():
+    envs.enable(64)  # E1-M: every 64th case again under every environment of mc/envs.py
     impl.load()
     for s_ in (True, False):
         probes[s_] = e1.compile_probe(src(s_))
